@@ -113,8 +113,11 @@ func genCSV(t *tape.Tape, o GenOpts) *World {
 	}
 	fd := D{"delimiter": delim, "data_row_index": 1, "columns": cols}
 	eol := lineEnd(t)
-	hdr := t.Weighted("csv.header", 1, 2, 1)
+	hdr := t.Weighted("csv.header", 1, 2, 1, 1)
 	switch hdr {
+	case 3: // two lines of preamble that are skipped without being looked at, no header
+		fd["data_row_index"] = 3
+		w.Prefix = "junk" + delim + "junk" + eol + "more junk" + delim + "more" + eol
 	case 1:
 		fd["header_row_index"] = 1
 		fd["data_row_index"] = 2
